@@ -16,6 +16,11 @@ namespace CMap
 /-- a Unicode scalar value -/
 def isScalar (c : Nat) : Bool := c < 0xD800 || (0xE000 ≤ c && c ≤ 0x10FFFF)
 
+/-- big-endian bytes of 16-bit units -/
+def unitBytes : List Nat → List Nat
+  | [] => []
+  | u :: r => u / 256 :: u % 256 :: unitBytes r
+
 inductive Ent where
   /-- `<cid> <dst>` in a bfchar section -/
   | char (cid : Nat) (s : List Nat)
